@@ -8,3 +8,6 @@ HARNESSES = [
 ]
 ASSUMPTIONS = []
 EXPLANATION = ""
+CLAIMED = True
+LEVEL_TEXT = "Bounded model checking (all inputs, no loop) of ntp.ValidateRequest against the predicate of the property text over every header and port, of the anti-reflection facts (no server-mode packet and no packet passing ValidateResponseMetadata is a valid request) and of the reply header bytes the server builds."
+LEVEL_NOTE = "Only the decision functions are covered: that the listener loop sends exactly one reply to the sender's address for exactly these payloads (and the NTS branch) is NOT covered by a harness; the reply fields are covered by C06."
